@@ -47,8 +47,9 @@ def main():
     out = os.path.abspath(sys.argv[1])
     files = sys.argv[2:]
     os.makedirs(out, exist_ok=True)
+    todo = [r for r in files if not os.path.exists(os.path.join(out, "log_" + r.replace("/", "_") + ".txt"))]  # resumable
     with concurrent.futures.ThreadPoolExecutor(max_workers=6) as ex:
-        for rel, log in ex.map(lambda r: sweep(out, r), files):
+        for rel, log in ex.map(lambda r: sweep(out, r), todo):
             open(os.path.join(out, "log_" + rel.replace("/", "_") + ".txt"), "w").write(log)
     mutants = []
     for rp in glob.glob(os.path.join(out, "report_*.json")):
@@ -63,12 +64,19 @@ def main():
     try:
         for m in sorted(silent, key=lambda m: m["id"]):
             src = os.path.join(out, m["id"] + ".go")
+            done = os.path.join(out, m["id"] + ".tests")
+            if os.path.exists(done):
+                m["tests"] = open(done).read().strip()
+                if m["tests"] == "pass":
+                    survivors.append(m)
+                continue
             dst = os.path.join(wt, m["file"])
             orig = open(dst, "rb").read()
             shutil.copyfile(src, dst)
-            p = subprocess.run(test_cmd(m["file"]), shell=True, cwd=wt, env=ENV, stdout=subprocess.PIPE, stderr=subprocess.STDOUT, text=True)
+            p = subprocess.run(test_cmd(m["file"]), shell=True, cwd=wt, env=ENV, stdout=subprocess.PIPE, stderr=subprocess.STDOUT, text=True, errors="replace")
             open(dst, "wb").write(orig)
             m["tests"] = "pass" if p.returncode == 0 else "fail"
+            open(done, "w").write(m["tests"])
             if p.returncode == 0:
                 survivors.append(m)
                 print(f"SURVIVES {m['id']} {m['file']}:{m['line']} {m['func']} {m['what']}", flush=True)
